@@ -228,6 +228,13 @@ func (c *Ctx) ruleKeepAliveClassify(rr *RuleRep, ka *ssa.Function, ctx, ctxTo ss
 			cause := ev
 			if call, callee := c.asCall(ev); call != nil && callee != nil && callee.Pkg == c.Pkg && c.isWrapFn(callee) {
 				cause = call.Call.Args[0]
+				// one wrap call for several outcomes (`return wrapError(err, …)` with err chosen per outcome): the cause on the
+				// paths through this case's edge
+				if phi, isPhi := c.Resolve(cause).(*ssa.Phi); isPhi && phi.Parent() == ka {
+					if vs, reached := valuesAlong(ka, cs.Edge, ret, phi, nil); reached && len(vs) == 1 {
+						cause = vs[0]
+					}
+				}
 			}
 			if pred(cause) || pred(c.ResolveAt(cause, ret)) {
 				rr.OK("KeepAlive/"+name, ret.Pos(), "%s", want)
@@ -497,6 +504,8 @@ func checkC17(r *Run) {
 		switch {
 		case ccall == nil:
 			r2.Bad("(*RetryClient).Connect", rc.Pos(), "RetryClient.Connect does not connect the client")
+		case hcall == nil && c.handlerInstalledBySetClient(a, baseHandle):
+			r2.OK("(*RetryClient).Connect/install", ccall.Pos(), "the stored handler is installed on every client handed to SetClient, inside the c.mu section that makes it current — before it can be connected")
 		case hcall == nil:
 			r2.Bad("(*RetryClient).Connect/install", ccall.Pos(), "the stored handler is never installed on the new connection: messages arriving on it are dropped")
 		default:
@@ -647,4 +656,53 @@ func (c *Ctx) ruleKeepAliveCtx(rr *RuleRep, m *reconnModel) {
 		}
 	}
 	rr.OK(key, wc.Pos(), "context.WithCancel(loop ctx) is evaluated after the once-only switch to context.Background()")
+}
+
+// handlerInstalledBySetClient: SetClient installs the stored handler on the client it is given — cli.Handle(c.handler)
+// with its own parameter, with c.mu held exclusively, on every path to every return — so that every client that can
+// become c.cli (and later be connected) already has it. Handle() keeps the two in step afterwards.
+func (c *Ctx) handlerInstalledBySetClient(a *retryAnchors, baseHandle *ssa.Function) bool {
+	sc := c.Method("RetryClient", "SetClient")
+	if sc == nil || baseHandle == nil || a.Mu == nil || a.Handler == nil {
+		return false
+	}
+	var cli ssa.Value
+	for _, p := range sc.Params {
+		if typeName(p.Type()) == "BaseClient" {
+			cli = p
+		}
+	}
+	if cli == nil {
+		return false
+	}
+	var hcall *ssa.Call
+	eachInstr(sc, func(in ssa.Instruction) {
+		if k, ok := in.(*ssa.Call); ok && c.StaticCalleeOf(&k.Call) == baseHandle && len(k.Call.Args) == 2 {
+			if c.Resolve(k.Call.Args[0]) == cli {
+				hcall = k
+			}
+		}
+	})
+	if hcall == nil {
+		return false
+	}
+	if _, isH := isLoadOfField(hcall.Call.Args[1], a.Handler); !isH {
+		return false
+	}
+	if !c.heldAt(sc, hcall, sc.Params[0], a.Mu, "w") {
+		return false
+	}
+	for _, ret := range returnsOf(sc) {
+		if !Dominated(sc, ret, func(x ssa.Instruction) bool { return x == ssa.Instruction(hcall) }, PathQ{}) {
+			return false
+		}
+	}
+	// the client is made current in the same function
+	stored := false
+	for _, st := range storesToField(sc, a.Cli) {
+		if c.Resolve(st.Val) == cli {
+			stored = true
+		}
+	}
+	return stored
 }
